@@ -8,10 +8,14 @@
 //                  both axes (transposed), against fixed configurations of the other axis
 //   enum_lines     exhaustive end points of draw_line, exhaustive dashed axis-aligned lines
 //   enum_text      draw_text at every position around small canvases
+//   enum_textlen   draw_text with every text length 0..600 (quick) / 0..2100 (thorough) and around powers of two beyond, one line and
+//                  several lines, positioned so that the END of the text is on the canvas
 //   enum_transform mirror / invert / alpha / channel width / copies on every small canvas
 //   history        rapidcheck-generated sequences of up to 25 operations on two canvases
 //   clip           clipping invariance: same operation on a canvas embedded in a larger one, cropped
-//   identities     mirror^2, invert^2, add-then-drop alpha, widen-then-narrow, deep copies
+//   identities     mirror^2, invert^2, add-then-drop alpha, widen-then-narrow, deep copies (pixelwise and by operator==)
+// Every canvas has a maximum sample value (Model::mv): the all-ones value of the channel width, or - a generated dimension - another
+// value, obtained through the raw-data constructors or by loading a Netpbm file with that MAXVAL (c07/ops.hh make_image).
 #include "c07/interp.hh"
 #include "verif.hh"
 
@@ -27,6 +31,7 @@ struct Single {
   uint64_t seed = 0;
   int64_t a[kOpArgs] = {0};
   std::string text;
+  uint64_t tmv = 0, omv = 0; // maximum sample value of the two canvases; 0 = the all-ones value of the channel width
 };
 
 static Case single_case(const std::string& check, const Single& s) {
@@ -36,6 +41,7 @@ static Case single_case(const std::string& check, const Single& s) {
   for (int i = 0; i < 4; i++) c.I(s.o[i]);
   c.N(s.seed);
   for (int i = 0; i < kOpArgs; i++) c.I(s.a[i]);
+  if (s.tmv || s.omv) c.N(s.tmv).N(s.omv); // appended (and optional) so that older saved cases still decode
   c.S(s.text);
   return c;
 }
@@ -47,26 +53,30 @@ static Single decode_single(const Case& c) {
   for (int i = 0; i < 4; i++) s.o[i] = c.i(6 + i);
   s.seed = c.u(10);
   for (int i = 0; i < kOpArgs; i++) s.a[i] = c.i(11 + i);
+  if (c.n.size() > 11 + kOpArgs) s.tmv = c.u(11 + kOpArgs), s.omv = c.u(12 + kOpArgs);
   if (!c.s.empty()) s.text = c.s[0];
   return s;
 }
 
-static void validate_dims(const int64_t* d) {
+static void validate_dims(const int64_t* d, uint64_t mv = 0) {
   if (d[0] < 0 || d[1] < 0 || d[0] > 64 || d[1] > 64 || (d[3] != 8 && d[3] != 16 && d[3] != 32 && d[3] != 64)) throw std::logic_error("canvas outside the domain");
+  if (mv > mask_of(d[3])) throw std::logic_error("maximum sample value outside the domain");
 }
 
 static uint64_t single_hash(const Single& s) {
   uint64_t h = mix(s.op, s.seed);
   for (int i = 0; i < 4; i++) h = mix(mix(h, s.t[i]), s.o[i]);
   for (int i = 0; i < kOpArgs; i++) h = mix(h, s.a[i]);
+  if (s.tmv || s.omv) h = mix(mix(h, s.tmv), s.omv);
   return hash_str(s.text, h);
 }
 
 static void run_single(const Single& s) {
-  validate_dims(s.t);
-  validate_dims(s.o);
+  validate_dims(s.t, s.tmv);
+  validate_dims(s.o, s.omv);
   if (s.op < 0 || s.op >= OP_COUNT) throw std::logic_error("bad opcode");
-  Canvas T(s.t[0], s.t[1], s.t[2] != 0, s.t[3]), O(s.o[0], s.o[1], s.o[2] != 0, s.o[3]);
+  Canvas T(s.t[0], s.t[1], s.t[2] != 0, s.t[3], s.tmv, s.seed >> 3), O(s.o[0], s.o[1], s.o[2] != 0, s.o[3], s.omv, s.seed >> 5);
+  if (T.m.mv != T.m.mask() || O.m.mv != O.m.mask()) ctx().cls("canvas:own-maximum-value");
   fill_content(T, s.seed);
   fill_content(O, s.seed + 1);
   std::vector<std::string> strings{s.text};
@@ -140,6 +150,22 @@ static void expand_pixel(const Case& c, const std::function<void(const Single&)>
           s.a[2] = 0xA1B2C3D4LL;
         }
         f(s);
+      }
+    }
+  }
+  // what read_pixel reports as alpha on an opaque canvas with a maximum value of its own
+  if (!kFmt[fmt][0]) {
+    for (unsigned k = 0; k < 4; k++) {
+      for (int64_t x = -1; x <= W; x++) {
+        for (int64_t y = -1; y <= H; y++) {
+          Single s;
+          s.op = OP_READ;
+          s.t[0] = W, s.t[1] = H, s.t[2] = 0, s.t[3] = kFmt[fmt][1];
+          s.tmv = alt_maxval(kFmt[fmt][1], k);
+          s.seed = W * 31 + H + k * 8; // bits 3.. select the construction route
+          s.a[0] = x, s.a[1] = y;
+          f(s);
+        }
       }
     }
   }
@@ -351,15 +377,77 @@ static void enum_text(Enum& e) {
   if (!e.stop) e.complete(cat("draw_text (5 overloads, 6 strings incl. newlines and unprintable bytes, with/without background) at every position in [-8,w+2] x [-10,h+2] on ", sizes.size(), " canvas sizes"));
 }
 
+// ---------------------------------------------------------------- enum_textlen: block n=[1, layout, first length, last length]
+// "For any ... text": the length of the text is an argument like any other, and what happens to the END of a long text is only visible
+// when the end is on the canvas. Every length in a range; layout 0 = one line drawn at a strongly negative x, layout 1 = a line break
+// every 37 characters (and a stray carriage return) drawn at a negative y, so that the last one or two characters are on the canvas.
+// Most characters left of the canvas are spaces (each off-canvas glyph pixel costs phosg a thrown-and-swallowed out_of_range).
+static std::string textlen_text(size_t len, int layout) {
+  std::string t(len, ' ');
+  for (size_t i = 0; i < len; i++) {
+    uint64_t k = mix(i, len * 2 + layout);
+    if (i + 4 >= len || (i % 16) == 5) t[i] = static_cast<char>(0x21 + k % 0x5E); // printable, not a space
+    if (layout == 1 && (i % 37) == 36) t[i] = '\n';
+    if (layout == 1 && (i % 101) == 50) t[i] = '\r';
+  }
+  return t;
+}
+static void expand_textlen(const Case& c, const std::function<void(const Single&)>& f) {
+  int64_t layout = c.i(1), first = c.i(2), last = c.i(3);
+  if (layout < 0 || layout > 1 || first < 0 || last < first || last > 70000) throw std::logic_error("textlen: block outside the domain");
+  for (int64_t len = first; len <= last; len++) {
+    Single s;
+    s.op = OP_TEXT;
+    int fmt = static_cast<int>((len + 3 * layout) % 8);
+    s.t[0] = 13, s.t[1] = 10, s.t[2] = kFmt[fmt][0], s.t[3] = kFmt[fmt][1];
+    s.seed = len * 2 + layout;
+    s.text = textlen_text(len, layout);
+    int64_t lines = 0, last_line = 0;
+    for (char ch : s.text) {
+      if (ch == '\n') lines++, last_line = 0;
+      else if (ch != '\r') last_line++;
+    }
+    s.a[0] = 2 - 6 * std::max<int64_t>(last_line - 2, 0);
+    s.a[1] = 1 - 8 * lines;
+    s.a[2] = 0xF0, s.a[3] = 0x1, s.a[4] = 0x1FF, s.a[5] = (len & 1) ? 0xFF : 0x60;
+    s.a[6] = 0x20, s.a[7] = 0x30, s.a[8] = 0x40;
+    s.a[9] = (len % 3) == 0 ? 0 : ((len % 3) == 1 ? 0xFF : 0x80);
+    s.a[11] = len % 5;
+    f(s);
+  }
+}
+static void enum_textlen(Enum& e) {
+  std::vector<Case> blocks;
+  int64_t dense = e.thorough() ? 2100 : 600;
+  for (int layout = 0; layout < 2; layout++) {
+    for (int64_t a = 0; a <= dense; a += 20) blocks.push_back(Case(e.sc.name).N(1).I(layout).I(a).I(std::min<int64_t>(a + 19, dense)));
+    for (int64_t p : {1024, 2048, 4096, 8192, 16384, 32768, 65536}) {
+      if (p <= dense + 4 || (!e.thorough() && p > 4096)) continue;
+      for (int64_t len = p - 3; len <= p + 2; len++) blocks.push_back(Case(e.sc.name).N(1).I(layout).I(len).I(len));
+    }
+  }
+  enumerate_blocks(e, blocks, expand_textlen);
+  if (!e.stop) e.complete(cat("draw_text (5 overloads) with every text length 0..", dense, " and 2^k-3..2^k+2 up to ", e.thorough() ? 65536 : 4096, ", as one line and with line breaks, placed so that the last characters are on a 13x10 canvas"));
+}
+
 // ---------------------------------------------------------------- enum_transform: block n=[1, W, H]
 static void expand_transform(const Case& c, const std::function<void(const Single&)>& f) {
   int64_t W = c.i(1), H = c.i(2);
+  // mvk 0: both canvases have the all-ones maximum value; 1..: the target (and, for the copies / operator==, the other canvas in
+  // some combinations) has a maximum value of its own, built through each construction route
+  for (int mvk = 0; mvk < 5; mvk++)
   for (int fmt = 0; fmt < 8; fmt++) {
     for (int of = 0; of < 8; of += 3) {
+      if (mvk > 2 && of != 0) continue;
       Single s;
       s.t[0] = W, s.t[1] = H, s.t[2] = kFmt[fmt][0], s.t[3] = kFmt[fmt][1];
       s.o[0] = (W + of) % 9, s.o[1] = (H * 2 + of) % 9, s.o[2] = kFmt[of][0], s.o[3] = kFmt[of][1];
       s.seed = W * 17 + H + fmt * 1000;
+      if (mvk) {
+        s.tmv = (mvk == 2 && of == 3) ? 0 : alt_maxval(kFmt[fmt][1], mvk - 1);
+        s.omv = (of == 0 && mvk == 1) ? 0 : alt_maxval(kFmt[of][1], mvk + of);
+        s.seed += static_cast<uint64_t>(mvk + of) * 8; // construction route of the target in bits 3-4, of the other canvas in bits 5-6
+      }
       auto go = [&](int op, int64_t a0 = 0, int64_t a1 = 0, int64_t a2 = 0, int64_t a3 = 0) {
         s.op = op;
         memset(s.a, 0, sizeof(s.a));
@@ -373,7 +461,7 @@ static void expand_transform(const Case& c, const std::function<void(const Singl
         go(OP_SET_ALPHA, 0);
         go(OP_SET_ALPHA, 1);
         for (int64_t cw : {8, 16, 32, 64, 0, 12, 24, 128}) go(OP_SET_CW, cw);
-        uint64_t M = mask_of(kFmt[fmt][1]);
+        uint64_t M = s.tmv ? s.tmv : mask_of(kFmt[fmt][1]);
         for (unsigned k = 0; k < 6; k++) {
           RGBA n = named_colour(k, M);
           go(OP_ALPHA_FROM_MASK64, n.r, n.g, n.b);
@@ -395,7 +483,7 @@ static void enum_transform(Enum& e) {
   for (int W = 0; W <= N; W++)
     for (int H = 0; H <= N; H++) blocks.push_back(Case(e.sc.name).N(1).I(W).I(H));
   enumerate_blocks(e, blocks, expand_transform);
-  if (!e.stop) e.complete(cat("mirror, invert, set_has_alpha, set_channel_width (valid and invalid), set_alpha_from_mask_color, clear, copy/move, operator== on every canvas 0..", N, " x 0..", N, " in all 8 formats"));
+  if (!e.stop) e.complete(cat("mirror, invert, set_has_alpha, set_channel_width (valid and invalid), set_alpha_from_mask_color, clear, copy/move, operator== on every canvas 0..", N, " x 0..", N, " in all 8 formats, with the all-ones maximum value and with 4 other maximum values (raw-data constructors, Netpbm load)"));
 }
 
 // ---------------------------------------------------------------- random generation
@@ -447,24 +535,78 @@ static std::string gen_text(size_t maxlen) {
   return s;
 }
 
+// a long text: length anywhere up to 300, or next to a power of two; few line breaks
+static std::string gen_long_text() {
+  size_t n;
+  switch (vg::below(3)) {
+    case 0: n = vg::range(8, 100); break;
+    case 1: n = vg::range(100, 300); break;
+    default: n = static_cast<size_t>(vg::pick<int64_t>({32, 64, 128, 256, 512}) + vg::range(-2, 2));
+  }
+  std::string s;
+  for (size_t i = 0; i < n; i++) {
+    switch (vg::below(24)) {
+      case 0: s += '\n'; break;
+      case 1: s += static_cast<char>(vg::range(1, 255)); break;
+      case 2: s += vg::pick<char>({'\r', '\x7F', '\x1F', '\x80', '%'}); break;
+      case 3:
+      case 4:
+      case 5:
+      case 6:
+      case 7:
+      case 8:
+      case 9:
+      case 10: s += ' '; break;
+      default: s += static_cast<char>(vg::range(0x21, 0x7E));
+    }
+  }
+  return s;
+}
+
 struct Dims {
   int64_t w, h, alpha, cw;
+  uint64_t mv = 0; // maximum sample value, 0 = all ones of the channel width
 };
+static uint64_t gen_maxval(int64_t cw) {
+  uint64_t M = mask_of(cw);
+  switch (vg::below(4)) {
+    case 0: return alt_maxval(cw, vg::below(4));
+    case 1: return vg::pick<uint64_t>({1, 2, 0x7F, 0x80, 0xFE, 0xFF, 100}) & M;
+    case 2: return M - vg::below(3) - 1;
+    default: {
+      uint64_t v = vg::u64() & M;
+      if (cw > 8 && vg::coin()) v >>= cw / 2; // a value that would also fit the next narrower width
+      return v ? v : 1;
+    }
+  }
+}
 static Dims gen_dims(int64_t maxside) {
   Dims d;
   d.w = vg::chance(1, 10) ? 0 : vg::chance(1, 2) ? vg::range(1, 8) : vg::range(1, maxside);
   d.h = vg::chance(1, 10) ? 0 : vg::chance(1, 2) ? vg::range(1, 8) : vg::range(1, maxside);
   d.alpha = vg::coin();
   d.cw = vg::pick<int64_t>({8, 8, 16, 32, 64});
+  if (vg::chance(1, 4)) {
+    d.mv = gen_maxval(d.cw);
+    if (d.mv == mask_of(d.cw)) d.mv = 0;
+  }
   return d;
+}
+// two canvases: when both have a maximum value of their own and the same channel width, it is often the same one
+static void relate_maxvals(const Dims& t, Dims& o) {
+  if (t.mv && o.mv && t.cw == o.cw && vg::coin()) o.mv = t.mv;
 }
 
 // draws the arguments of one operation given the current geometry of target and source
-static void gen_op_args(int op, const Dims& t, const Dims& o, int64_t* a, std::vector<std::string>& strings, bool allow_huge) {
+static void gen_op_args(int op, const Dims& t, const Dims& o, int64_t* a, std::vector<std::string>& strings, bool allow_huge, bool long_texts = false) {
   memset(a, 0, sizeof(int64_t) * kOpArgs);
   uint64_t M = mask_of(t.cw);
   auto colour = [&](int64_t* dst, int n) {
-    if (vg::chance(1, 3)) {
+    if ((t.mv || o.mv) && vg::chance(1, 4)) {
+      RGBA k = named_colour(vg::below(6), (t.mv && (!o.mv || vg::coin())) ? t.mv : o.mv);
+      uint64_t v[4] = {k.r, k.g, k.b, k.a};
+      for (int i = 0; i < n; i++) dst[i] = v[i];
+    } else if (vg::chance(1, 3)) {
       RGBA k = named_colour(vg::below(6), vg::coin() ? M : mask_of(o.cw));
       uint64_t v[4] = {k.r, k.g, k.b, k.a};
       for (int i = 0; i < n; i++) dst[i] = v[i];
@@ -541,7 +683,7 @@ static void gen_op_args(int op, const Dims& t, const Dims& o, int64_t* a, std::v
     }
     case OP_BLEND_ALPHA:
       rect(true);
-      a[6] = gen_channel(M);
+      a[6] = (t.mv && vg::chance(1, 3)) ? t.mv : gen_channel(M);
       break;
     case OP_LINE64:
     case OP_LINE32:
@@ -571,12 +713,30 @@ static void gen_op_args(int op, const Dims& t, const Dims& o, int64_t* a, std::v
     }
     case OP_TEXT: {
       bool far = vg::chance(1, 8) && allow_huge;
+      bool longtext = !far && long_texts && vg::chance(1, 10);
       a[0] = far ? gen_coord(t.w, true) : vg::range(-14, t.w + 3);
       a[1] = far ? gen_coord(t.h, true) : vg::range(-18, t.h + 3);
       colour(a + 2, 4);
       colour(a + 6, 4);
       if (vg::chance(1, 3)) a[9] = 0;
       if (vg::chance(1, 3)) a[9] = 0xFF;
+      if (longtext) {
+        // the end of the text on (or next to) the canvas: x moved left by the length of the last line, y up by the number of line breaks
+        std::string lt = gen_long_text();
+        int64_t lines = 0, last_line = 0;
+        for (char ch : lt) {
+          if (ch == '\n') lines++, last_line = 0;
+          else if (ch != '\r') last_line++;
+        }
+        if (vg::chance(3, 4)) {
+          a[0] = vg::range(-8, t.w + 2) - 6 * std::max<int64_t>(last_line - vg::range(1, 3), 0);
+          a[1] = vg::range(-6, t.h + 2) - 8 * lines;
+        }
+        strings.push_back(lt);
+        a[10] = strings.size() - 1;
+        a[11] = vg::below(5);
+        break;
+      }
       strings.push_back(gen_text(far ? 3 : 7));
       a[10] = strings.size() - 1;
       a[11] = vg::below(5);
@@ -627,27 +787,34 @@ static Case gen_op1() {
     t.w = std::max<int64_t>(t.w, 2), t.h = std::max<int64_t>(t.h, 2), o.w = std::max<int64_t>(o.w, 1), o.h = std::max<int64_t>(o.h, 1);
     if (t.cw == 64) t.cw = 32;
     if (o.cw == 64) o.cw = 16;
+    if (t.mv > mask_of(t.cw)) t.mv = 0;
+    if (o.mv > mask_of(o.cw)) o.mv = 0;
   }
+  relate_maxvals(t, o);
   s.t[0] = t.w, s.t[1] = t.h, s.t[2] = t.alpha, s.t[3] = t.cw;
   s.o[0] = o.w, s.o[1] = o.h, s.o[2] = o.alpha, s.o[3] = o.cw;
+  s.tmv = t.mv, s.omv = o.mv;
   s.seed = vg::u64();
   std::vector<std::string> strings;
-  gen_op_args(s.op, t, o, s.a, strings, true);
+  gen_op_args(s.op, t, o, s.a, strings, true, true);
   if (!strings.empty()) s.text = strings[0];
   ctx().cls(cat("op1:", op_name(s.op)));
   return single_case("op1", s);
 }
 
 // ---------------------------------------------------------------- history
-// n = [c0: w,h,alpha,cw, c1: w,h,alpha,cw, seed, nops, { op, target, a0..a11 } * nops], s = text blobs
+// n = [c0: w,h,alpha,cw, c1: w,h,alpha,cw, seed, nops, { op, target, a0..a11 } * nops, (max value of c0, of c1)], s = text blobs
 static void run_history(const Case& c) {
   int64_t d0[4] = {c.i(0), c.i(1), c.i(2), c.i(3)}, d1[4] = {c.i(4), c.i(5), c.i(6), c.i(7)};
-  validate_dims(d0);
-  validate_dims(d1);
   uint64_t seed = c.u(8);
   size_t nops = c.u(9);
-  if (c.n.size() != 10 + nops * (2 + kOpArgs)) throw std::logic_error("history: malformed case");
-  Canvas cv[2] = {Canvas(d0[0], d0[1], d0[2] != 0, d0[3]), Canvas(d1[0], d1[1], d1[2] != 0, d1[3])};
+  size_t base_n = 10 + nops * (2 + kOpArgs);
+  if (c.n.size() != base_n && c.n.size() != base_n + 2) throw std::logic_error("history: malformed case");
+  uint64_t mv0 = c.n.size() > base_n ? c.u(base_n) : 0, mv1 = c.n.size() > base_n ? c.u(base_n + 1) : 0;
+  validate_dims(d0, mv0);
+  validate_dims(d1, mv1);
+  Canvas cv[2] = {Canvas(d0[0], d0[1], d0[2] != 0, d0[3], mv0, seed >> 3), Canvas(d1[0], d1[1], d1[2] != 0, d1[3], mv1, seed >> 5)};
+  if (mv0 || mv1) ctx().cls("history:own-maximum-value");
   fill_content(cv[0], seed);
   fill_content(cv[1], seed ^ 0x5555);
   bool nt = false;
@@ -677,6 +844,8 @@ static void run_history(const Case& c) {
 static Case gen_history() {
   Case c;
   Dims d[2] = {gen_dims(40), gen_dims(24)};
+  relate_maxvals(d[0], d[1]);
+  const uint64_t mv0 = d[0].mv, mv1 = d[1].mv;
   for (int k = 0; k < 2; k++) c.I(d[k].w).I(d[k].h).I(d[k].alpha).I(d[k].cw);
   c.N(vg::u64());
   size_t nops = 1 + vg::scaled(24);
@@ -690,14 +859,15 @@ static Case gen_history() {
     for (int i = 0; i < kOpArgs; i++) c.I(a[i]);
     // shadow geometry
     if (op == OP_SET_ALPHA) d[tgt].alpha = a[0] != 0;
-    if (op == OP_SET_CW && (a[0] == 8 || a[0] == 16 || a[0] == 32 || a[0] == 64)) d[tgt].cw = a[0];
+    if (op == OP_SET_CW && (a[0] == 8 || a[0] == 16 || a[0] == 32 || a[0] == 64) && d[tgt].cw != a[0]) d[tgt].cw = a[0], d[tgt].mv = 0;
     if (op == OP_COPY_ASSIGN || op == OP_COPY_CONSTRUCT || op == OP_MOVE_ASSIGN) d[tgt] = d[1 - tgt];
   }
+  if (mv0 || mv1) c.N(mv0).N(mv1);
   return c;
 }
 
 // ---------------------------------------------------------------- clipping invariance
-// n = [op, W,H,alpha,cw, oW,oH,oAlpha,oCw, seed, margin, a0..a11], s = [text]
+// n = [op, W,H,alpha,cw, oW,oH,oAlpha,oCw, seed, margin, a0..a11, (max value of the target canvases, of the other canvas)], s = [text]
 static bool clip_op_ok(int op) {
   switch (op) {
     case OP_FILL64:
@@ -720,15 +890,16 @@ static void run_clip(const Case& c) {
   int op = c.i(0);
   if (!clip_op_ok(op)) throw std::logic_error("clip: operation not in the invariance family");
   int64_t dt[4] = {c.i(1), c.i(2), c.i(3), c.i(4)}, dobj[4] = {c.i(5), c.i(6), c.i(7), c.i(8)};
-  validate_dims(dt);
-  validate_dims(dobj);
+  uint64_t tmv = c.n.size() > 11 + kOpArgs ? c.u(11 + kOpArgs) : 0, omv = c.n.size() > 11 + kOpArgs ? c.u(12 + kOpArgs) : 0;
+  validate_dims(dt, tmv);
+  validate_dims(dobj, omv);
   uint64_t seed = c.u(9);
   int64_t m = c.i(10);
   if (m < 0 || m > 16) throw std::logic_error("clip: margin outside the domain");
   int64_t a[kOpArgs];
   for (int i = 0; i < kOpArgs; i++) a[i] = c.i(11 + i);
   if (op == OP_TEXT) a[10] = 0;
-  Canvas S(dt[0], dt[1], dt[2] != 0, dt[3]), B(dt[0] + 2 * m, dt[1] + 2 * m, dt[2] != 0, dt[3]), O(dobj[0], dobj[1], dobj[2] != 0, dobj[3]);
+  Canvas S(dt[0], dt[1], dt[2] != 0, dt[3], tmv, seed >> 3), B(dt[0] + 2 * m, dt[1] + 2 * m, dt[2] != 0, dt[3], tmv, seed >> 7), O(dobj[0], dobj[1], dobj[2] != 0, dobj[3], omv, seed >> 5);
   fill_content(S, seed);
   fill_content(B, seed + 7);
   fill_content(O, seed + 1);
@@ -770,29 +941,42 @@ static Case gen_clip() {
   static const int ops[13] = {OP_FILL64, OP_FILL32, OP_BLIT, OP_MASK_BLIT64, OP_MASK_BLIT32, OP_MASK_DST64, OP_MASK_DST32, OP_MASK_IMG, OP_BLEND, OP_BLEND_ALPHA, OP_CUSTOM32, OP_CUSTOM64, OP_TEXT};
   int op = ops[vg::below(13)];
   Dims t = gen_dims(24), o = gen_dims(24);
+  relate_maxvals(t, o);
   int64_t a[kOpArgs];
   Case c;
   std::vector<std::string> strings;
-  gen_op_args(op, t, o, a, strings, false);
+  gen_op_args(op, t, o, a, strings, false, vg::chance(1, 3));
   c.I(op).I(t.w).I(t.h).I(t.alpha).I(t.cw).I(o.w).I(o.h).I(o.alpha).I(o.cw).N(vg::u64()).I(vg::range(1, 12));
   for (int i = 0; i < kOpArgs; i++) c.I(a[i]);
+  if (t.mv || o.mv) c.N(t.mv).N(o.mv);
   c.S(strings.empty() ? std::string() : strings[0]);
   return c;
 }
 
 // ---------------------------------------------------------------- identities
-// n = [W,H,alpha,cw,seed]
+// n = [W,H,alpha,cw,seed,(max value)]
 static void run_identities(const Case& c) {
   int64_t d[4] = {c.i(0), c.i(1), c.i(2), c.i(3)};
-  validate_dims(d);
-  Canvas A(d[0], d[1], d[2] != 0, d[3]);
+  uint64_t mv = c.n.size() > 5 ? c.u(5) : 0;
+  validate_dims(d, mv);
+  Canvas A(d[0], d[1], d[2] != 0, d[3], mv, c.u(4) >> 3);
   fill_content(A, c.u(4));
+  if (A.m.mv != A.m.mask()) ctx().cls("identities:own-maximum-value");
   const std::vector<uint64_t> orig = raw_pixels(A.img);
-  auto same = [&](const phosg::Image& im, const char* what) {
+  const phosg::Image orig_img = A.img;
+  // "identity" / "deep copy" means the result is the same image: same geometry, same samples, and equal under the library's own
+  // operator== (which also sees the maximum sample value, a property of the image that has no accessor)
+  auto same = [&](const phosg::Image& im, const char* what, bool by_operator = true) {
     VCHECK(static_cast<int64_t>(im.get_width()) == d[0] && static_cast<int64_t>(im.get_height()) == d[1] && im.get_has_alpha() == (d[2] != 0) && im.get_channel_width() == d[3],
         cat("identity:", what), what, " changed the geometry/format of ", describe(A.m));
     VCHECK(raw_pixels(im) == orig, cat("identity:", what), what, " is not the identity on ", describe(A.m));
+    if (by_operator) {
+      VCHECK(im == orig_img && !(im != orig_img) && orig_img == im, cat("identity:", what), what, " on ", describe(A.m), ": geometry and samples are those of the original, but operator== says the images differ");
+      std::string dmv = max_value_diff(im, A.m);
+      VCHECK(dmv.empty(), cat("identity:", what), what, ": ", dmv);
+    }
   };
+  same(A.img, "making a copy");
   phosg::Image w = A.img;
   w.reverse_horizontal();
   w.reverse_horizontal();
@@ -814,7 +998,11 @@ static void run_identities(const Case& c) {
     w.set_channel_width(wider);
     VCHECK(w.get_channel_width() == wider, "identity:set_channel_width", "set_channel_width(", wider, ") did not widen");
     w.set_channel_width(d[3]);
-    same(w, "widen-then-narrow");
+    // set_channel_width to another width makes the all-ones value of that width the maximum value (the model says so too), so for a
+    // canvas with a maximum value of its own the round trip restores the samples but not that value: pixelwise only
+    if (A.m.mv != A.m.mask()) ctx().exclude("widen-then-narrow on a canvas with its own maximum value: compared pixelwise, not by operator== (set_channel_width resets the maximum value by design)");
+    same(w, "widen-then-narrow", A.m.mv == A.m.mask());
+    if (A.m.mv != A.m.mask()) break; // w now has the all-ones maximum value: the remaining rounds would not start from the original
   }
   // copies are deep
   {
@@ -845,7 +1033,10 @@ static void run_identities(const Case& c) {
 }
 static Case gen_identities() {
   Dims t = gen_dims(40);
-  return Case().I(t.w).I(t.h).I(t.alpha).I(t.cw).N(vg::u64());
+  Case c;
+  c.I(t.w).I(t.h).I(t.alpha).I(t.cw).N(vg::u64());
+  if (t.mv) c.N(t.mv);
+  return c;
 }
 static void enum_identities(Enum& e) {
   int N = scope_n(e.thorough());
@@ -856,8 +1047,12 @@ static void enum_identities(Enum& e) {
         if (!e.mine(idx++)) continue;
         e.exec(Case(e.sc.name).I(W).I(H).I(kFmt[fmt][0]).I(kFmt[fmt][1]).N(idx));
         if (e.stop) return;
+        for (unsigned k = 0; k < 4; k++) { // the same canvas with a maximum value of its own, through each construction route
+          e.exec(Case(e.sc.name).I(W).I(H).I(kFmt[fmt][0]).I(kFmt[fmt][1]).N(idx * 32 + k * 8).N(alt_maxval(kFmt[fmt][1], k)));
+          if (e.stop) return;
+        }
       }
-  e.complete(cat("identities on every canvas 0..", N, " x 0..", N, " in all 8 formats"));
+  e.complete(cat("identities on every canvas 0..", N, " x 0..", N, " in all 8 formats, with the all-ones maximum value and 4 others"));
 }
 
 int main(int argc, char** argv) {
@@ -883,6 +1078,7 @@ int main(int argc, char** argv) {
   add_enum("enum_blit", expand_blit, enum_blit);
   add_enum("enum_lines", expand_lines, enum_lines);
   add_enum("enum_text", expand_text, enum_text);
+  add_enum("enum_textlen", expand_textlen, enum_textlen);
   add_enum("enum_transform", expand_transform, enum_transform);
   {
     SubCheck s;
